@@ -17,6 +17,8 @@
 #include "Store.h"
 #include "StrList.h"
 
+#include <limits>
+
 /*
  *    Currently only byte ranges are supported
  *
@@ -95,6 +97,11 @@ HttpHdrRangeSpec::parseInit(const char *field, int flen)
                     debugs(64, 2, "invalid (last-byte-pos < first-byte-pos) range-spec near: " << field);
                     return false;
                 }
+
+                // last_pos + 1 below must not overflow; no entity reaches that
+                // position, and canonize() clips to the entity length anyway
+                if (last_pos == std::numeric_limits<int64_t>::max())
+                    --last_pos;
 
                 HttpHdrRangeSpec::HttpRange aSpec (offset, last_pos + 1);
 
